@@ -123,7 +123,7 @@ def run(ctx):
 
     # 5 conformance -----------------------------------------------------------------------------------
     nshard = ctx.pick(4, 12)
-    nvar = ctx.pick(2, 5)
+    nvar = ctx.pick(2, 4)
     nrand = ctx.pick(2000, 10000)
     obs = os.path.join(d, "obs.ndjson")
     t0 = time.time()
